@@ -13,6 +13,15 @@
 //     the symbolic execution and one Lean def is emitted (f, f_z_eq_x, f_x_eq_y, f_all, ...). A def takes
 //     the initial value of every root whose initial value is read and returns the final value of ALL
 //     pointer-reachable roots (plus the Go return value when that is a field-like value or a bool).
+//
+// Curve packages (curvePkgs, output Gen/Curve/<Pkg>{,Alias}.lean): the point formulas of g1.go / g2.go / point.go.
+//   - a curve package may reuse ONE tower package (`parent`): `fptower.E2` / `fptower.E4` denote the parent's structures,
+//     method calls on them are calls of the parent's Lean defs (fully qualified), so G2 formulas are over the translated
+//     E2 / E4; the curve packages over a tower are translated before the tower's files are emitted;
+//   - package-level variables without a literal initialiser (bCurveCoeff, bTwistCurveCoeff, thirdRootOneG1, g1Infinity,
+//     the fields of the struct variables `curveParams`, `endo`) are PARAMETERS of the defs that read them: nothing is
+//     assumed about their value; `initOnce.Do(init…)` on a package-level sync.Once is skipped for the same reason;
+//   - `new(T)` is a pointer to a fresh zero cell; `fp.Element{}` is 0.
 package main
 
 import (
@@ -39,19 +48,70 @@ type towerPkg struct {
 	dir       string   // tower package (relative to repo)
 	baseDir   string   // base field package
 	baseFiles []string // files of the base package that contain translatable helpers
+	// curve packages (point formulas, Gen/Curve): coordinates in the base field or in a structure of the tower package
+	curve    bool
+	tower    string   // name of the tower package whose translated structures / methods are reused ("" = none)
+	towerDir string   // its directory (import path suffix)
+	files    []string // only these files of dir (nil = all)
+}
+
+func (c towerPkg) sub() string {
+	if c.curve {
+		return "Curve"
+	}
+	return "Tower"
+}
+func (c towerPkg) ns() string { return "GV.Gen." + c.sub() + "." + c.name }
+
+func swCurve(name, dir, tower string, g2 bool) towerPkg {
+	c := towerPkg{name: name, dir: "ecc/" + dir, baseDir: "ecc/" + dir + "/fp", curve: true, tower: tower,
+		files: []string{"g1.go", strings.ReplaceAll(dir, "-", "_") + ".go", dir + ".go"}}
+	if g2 {
+		c.files = append(c.files, "g2.go")
+	}
+	if tower != "" {
+		c.towerDir = "ecc/" + dir + "/internal/fptower"
+	}
+	return c
+}
+
+func teCurve(name, dir string) towerPkg {
+	return towerPkg{name: name, dir: "ecc/" + dir, baseDir: "ecc/" + filepath.Dir(dir) + "/fr", curve: true, files: []string{"point.go", "curve.go"}}
+}
+
+// point formulas: short Weierstrass G1/G2 (affine, Jacobian, extended Jacobian) and twisted Edwards
+var curvePkgs = []towerPkg{
+	swCurve("bn254", "bn254", "bn254", true),
+	swCurve("bls12_381", "bls12-381", "bls12_381", true),
+	swCurve("bls12_377", "bls12-377", "bls12_377", true),
+	swCurve("bls24_315", "bls24-315", "bls24_315", true),
+	swCurve("bls24_317", "bls24-317", "bls24_317", true),
+	swCurve("bw6_761", "bw6-761", "", true),
+	swCurve("bw6_633", "bw6-633", "", true),
+	swCurve("grumpkin", "grumpkin", "", false),
+	swCurve("secp256k1", "secp256k1", "", false),
+	swCurve("stark_curve", "stark-curve", "", false),
+	teCurve("te_bn254", "bn254/twistededwards"),
+	teCurve("te_bls12_381", "bls12-381/twistededwards"),
+	teCurve("te_bandersnatch", "bls12-381/bandersnatch"),
+	teCurve("te_bls12_377", "bls12-377/twistededwards"),
+	teCurve("te_bls24_315", "bls24-315/twistededwards"),
+	teCurve("te_bls24_317", "bls24-317/twistededwards"),
+	teCurve("te_bw6_761", "bw6-761/twistededwards"),
+	teCurve("te_bw6_633", "bw6-633/twistededwards"),
 }
 
 var towerPkgs = []towerPkg{
-	{"bn254", "ecc/bn254/internal/fptower", "ecc/bn254/fp", nil},
-	{"bls12_381", "ecc/bls12-381/internal/fptower", "ecc/bls12-381/fp", nil},
-	{"bls12_377", "ecc/bls12-377/internal/fptower", "ecc/bls12-377/fp", []string{"element_utils.go"}},
-	{"bls24_315", "ecc/bls24-315/internal/fptower", "ecc/bls24-315/fp", nil},
-	{"bls24_317", "ecc/bls24-317/internal/fptower", "ecc/bls24-317/fp", nil},
-	{"bw6_761", "ecc/bw6-761/internal/fptower", "ecc/bw6-761/fp", []string{"bw6_utils.go"}},
-	{"bw6_633", "ecc/bw6-633/internal/fptower", "ecc/bw6-633/fp", []string{"bw6_utils.go"}},
-	{"koalabear", "field/koalabear/extensions", "field/koalabear", nil},
-	{"babybear", "field/babybear/extensions", "field/babybear", nil},
-	{"goldilocks", "field/goldilocks/extensions", "field/goldilocks", nil},
+	{name: "bn254", dir: "ecc/bn254/internal/fptower", baseDir: "ecc/bn254/fp", baseFiles: nil},
+	{name: "bls12_381", dir: "ecc/bls12-381/internal/fptower", baseDir: "ecc/bls12-381/fp", baseFiles: nil},
+	{name: "bls12_377", dir: "ecc/bls12-377/internal/fptower", baseDir: "ecc/bls12-377/fp", baseFiles: []string{"element_utils.go"}},
+	{name: "bls24_315", dir: "ecc/bls24-315/internal/fptower", baseDir: "ecc/bls24-315/fp", baseFiles: nil},
+	{name: "bls24_317", dir: "ecc/bls24-317/internal/fptower", baseDir: "ecc/bls24-317/fp", baseFiles: nil},
+	{name: "bw6_761", dir: "ecc/bw6-761/internal/fptower", baseDir: "ecc/bw6-761/fp", baseFiles: []string{"bw6_utils.go"}},
+	{name: "bw6_633", dir: "ecc/bw6-633/internal/fptower", baseDir: "ecc/bw6-633/fp", baseFiles: []string{"bw6_utils.go"}},
+	{name: "koalabear", dir: "field/koalabear/extensions", baseDir: "field/koalabear", baseFiles: nil},
+	{name: "babybear", dir: "field/babybear/extensions", baseDir: "field/babybear", baseFiles: nil},
+	{name: "goldilocks", dir: "field/goldilocks/extensions", baseDir: "field/goldilocks", baseFiles: nil},
 }
 
 // functions that must translate (hand-maintained expectation; `-slp-print-targets` prints the current set)
@@ -157,20 +217,24 @@ type global struct {
 }
 
 type pkgCtx struct {
-	cfg      towerPkg
-	fc       *fieldConsts
-	baseQual map[*ast.File]string
-	fileOf   map[*ast.FuncDecl]*ast.File
-	structs  map[string]*typ
-	arrays   map[string]*typ
-	funcs    map[string]*fn
-	fnOrder  []string
-	globals  map[string]*global
-	variants map[string]*variant
-	order    []*variant
-	consts   []string // emitted Lean constant defs
-	constSet map[string]bool
-	known    []string // alias theorems suppressed as known findings
+	parent     *pkgCtx // tower package reused by a curve package
+	towerQual  map[*ast.File]string
+	onceVars   map[string]bool // package-level sync.Once variables (their .Do(init) calls are skipped)
+	cfg        towerPkg
+	fc         *fieldConsts
+	baseQual   map[*ast.File]string
+	fileOf     map[*ast.FuncDecl]*ast.File
+	structs    map[string]*typ
+	arrays     map[string]*typ
+	funcs      map[string]*fn
+	fnOrder    []string
+	globals    map[string]*global
+	variants   map[string]*variant
+	order      []*variant
+	consts     []string // emitted Lean constant defs
+	constSet   map[string]bool
+	known      []string // alias theorems suppressed as known findings
+	nBoolAlias int
 }
 
 type variant struct {
@@ -225,8 +289,8 @@ func buildOK(f *ast.File, fname string) bool {
 	return true
 }
 
-func loadPkg(cfg towerPkg) *pkgCtx {
-	p := &pkgCtx{cfg: cfg, fc: extractField(cfg.baseDir), baseQual: map[*ast.File]string{}, fileOf: map[*ast.FuncDecl]*ast.File{},
+func loadPkg(cfg towerPkg, parent *pkgCtx) *pkgCtx {
+	p := &pkgCtx{cfg: cfg, parent: parent, towerQual: map[*ast.File]string{}, onceVars: map[string]bool{}, fc: extractField(cfg.baseDir), baseQual: map[*ast.File]string{}, fileOf: map[*ast.FuncDecl]*ast.File{},
 		structs: map[string]*typ{}, arrays: map[string]*typ{}, funcs: map[string]*fn{}, globals: map[string]*global{},
 		variants: map[string]*variant{}, constSet: map[string]bool{}}
 	fset := token.NewFileSet()
@@ -248,6 +312,12 @@ func loadPkg(cfg towerPkg) *pkgCtx {
 					p.baseQual[f] = im.Name.Name
 				}
 			}
+			if cfg.towerDir != "" && strings.HasSuffix(ip, "/"+cfg.towerDir) {
+				p.towerQual[f] = filepath.Base(ip)
+				if im.Name != nil {
+					p.towerQual[f] = im.Name.Name
+				}
+			}
 		}
 		files = append(files, f)
 		inBase[f] = base
@@ -258,7 +328,13 @@ func loadPkg(cfg towerPkg) *pkgCtx {
 	names, _ := filepath.Glob(filepath.Join(repo, cfg.dir, "*.go"))
 	sort.Strings(names)
 	for _, n := range names {
-		load(n, false)
+		keep := cfg.files == nil
+		for _, w := range cfg.files {
+			keep = keep || filepath.Base(n) == w
+		}
+		if keep {
+			load(n, false)
+		}
 	}
 	// pass 1: struct types whose fields are all field-like (iterate to a fixed point: order of declaration is free)
 	for changed := true; changed; {
@@ -299,6 +375,37 @@ func loadPkg(cfg towerPkg) *pkgCtx {
 			}
 		}
 	}
+	// struct types with SOME field-like fields (only used for package-level variables such as curveParams)
+	type pfield struct {
+		name string
+		t    *typ
+	}
+	partial := map[string][]pfield{}
+	for _, f := range files {
+		if inBase[f] {
+			continue
+		}
+		for _, d := range f.Decls {
+			gd, ok := d.(*ast.GenDecl)
+			if !ok || gd.Tok != token.TYPE {
+				continue
+			}
+			for _, sp := range gd.Specs {
+				ts := sp.(*ast.TypeSpec)
+				st, ok := ts.Type.(*ast.StructType)
+				if !ok || p.structs[ts.Name.Name] != nil {
+					continue
+				}
+				for _, fl := range st.Fields.List {
+					if ft, ptr, _ := p.typeOf(f, false, fl.Type); ft != nil && !ptr {
+						for _, nm := range fl.Names {
+							partial[ts.Name.Name] = append(partial[ts.Name.Name], pfield{nm.Name, ft})
+						}
+					}
+				}
+			}
+		}
+	}
 	// pass 2: functions and globals
 	for _, f := range files {
 		for _, d := range f.Decls {
@@ -323,6 +430,36 @@ func loadPkg(cfg towerPkg) *pkgCtx {
 						te = cl.Type
 					}
 					if te == nil {
+						continue
+					}
+					if se, ok := te.(*ast.SelectorExpr); ok && exprStr(se) == "sync.Once" {
+						for _, nm := range vs.Names {
+							p.onceVars[nm.Name] = true
+						}
+						continue
+					}
+					if st, ok := te.(*ast.StructType); ok && len(vs.Values) == 0 && !inBase[f] {
+						// variable of an anonymous struct type (endo): one parameter per field-like field
+						for _, nm := range vs.Names {
+							for _, fl := range st.Fields.List {
+								if ft, ptr, _ := p.typeOf(f, false, fl.Type); ft != nil && !ptr {
+									for _, fn := range fl.Names {
+										n := nm.Name + "_" + fn.Name
+										p.globals[n] = &global{name: n, t: ft, elems: map[int]ast.Expr{}}
+									}
+								}
+							}
+						}
+						continue
+					}
+					if id, ok := te.(*ast.Ident); ok && partial[id.Name] != nil && len(vs.Values) == 0 && !inBase[f] {
+						// variable of a struct type with some field-like fields (curveParams): one parameter per such field
+						for _, nm := range vs.Names {
+							for _, pf := range partial[id.Name] {
+								n := nm.Name + "_" + pf.name
+								p.globals[n] = &global{name: n, t: pf.t, elems: map[int]ast.Expr{}}
+							}
+						}
 						continue
 					}
 					t, ptr, _ := p.typeOf(f, inBase[f], te)
@@ -454,6 +591,11 @@ func (p *pkgCtx) typeOf(f *ast.File, inBase bool, e ast.Expr) (*typ, bool, bool)
 	case *ast.SelectorExpr:
 		if id, ok := x.X.(*ast.Ident); ok && id.Name == p.baseQual[f] && x.Sel.Name == "Element" && !inBase {
 			return baseT, false, false
+		}
+		if id, ok := x.X.(*ast.Ident); ok && p.parent != nil && p.towerQual[f] != "" && id.Name == p.towerQual[f] && !inBase {
+			if t := p.parent.structs[x.Sel.Name]; t != nil {
+				return t, false, false
+			}
 		}
 	case *ast.ArrayType:
 		n := litInt(x.Len)
@@ -798,14 +940,14 @@ func (x *tr) newRoot(s *state, name string, v *val) {
 
 // global root, created on first use
 func (x *tr) globalRoot(s *state, name string) bool {
-	g := x.p.globals[name]
+	g, owner := x.p.global(name)
 	if g == nil {
 		return false
 	}
 	if _, ok := s.cells["g:"+name]; !ok {
-		if x.p.constOf(g) {
+		if owner.constOf(g) {
 			x.need("NatCast")
-			s.cells["g:"+name] = &val{t: g.t, term: "(" + leanGlobal(g) + " (F := F))"}
+			s.cells["g:"+name] = &val{t: g.t, term: "(" + x.p.qual(owner, leanGlobal(g)) + " (F := F))"}
 		} else {
 			x.gp[name] = true
 			s.cells["g:"+name] = &val{t: g.t, term: name}
@@ -815,6 +957,35 @@ func (x *tr) globalRoot(s *state, name string) bool {
 }
 
 func leanGlobal(g *global) string { return "const_" + g.name }
+
+// package-level variable / function by name: own package first, then the reused tower package
+func (p *pkgCtx) global(name string) (*global, *pkgCtx) {
+	if g := p.globals[name]; g != nil {
+		return g, p
+	}
+	if p.parent != nil {
+		return p.parent.global(name)
+	}
+	return nil, nil
+}
+
+func (p *pkgCtx) lookupFn(key string) (*fn, *pkgCtx) {
+	if f := p.funcs[key]; f != nil {
+		return f, p
+	}
+	if p.parent != nil {
+		return p.parent.lookupFn(key)
+	}
+	return nil, p
+}
+
+// Lean name of a def of package `owner` as seen from package p
+func (p *pkgCtx) qual(owner *pkgCtx, name string) string {
+	if owner == p {
+		return name
+	}
+	return owner.cfg.ns() + "." + name
+}
 
 func (x *tr) fieldIndex(t *typ, name string) int {
 	for i, f := range t.fields {
@@ -849,6 +1020,13 @@ func (x *tr) evalLoc(s *state, e ast.Expr) loc {
 		if c, ok := e.X.(*ast.CallExpr); ok {
 			l = x.evalPtr(s, c)
 		} else {
+			if id, ok := e.X.(*ast.Ident); ok {
+				_, isPtr := s.ptrs[id.Name]
+				_, isCell := s.cells[id.Name]
+				if n := id.Name + "_" + e.Sel.Name; !isPtr && !isCell && x.p.globals[id.Name] == nil && x.globalRoot(s, n) {
+					return loc{root: "g:" + n}
+				}
+			}
 			l = x.evalLoc(s, e.X)
 		}
 		t := x.typeAt(s, l)
@@ -887,6 +1065,16 @@ func (x *tr) evalPtr(s *state, e ast.Expr) loc {
 			return x.evalLoc(s, e.X)
 		}
 	case *ast.CallExpr:
+		if id, ok := e.Fun.(*ast.Ident); ok && id.Name == "new" && len(e.Args) == 1 && x.p.funcs["new"] == nil {
+			t, ptr, _ := x.p.typeOf(x.file, x.v.f.inBase, e.Args[0])
+			if t == nil || ptr {
+				reject("new of unsupported type %s", exprStr(e.Args[0]))
+			}
+			x.anon++
+			n := fmt.Sprintf("new%d", x.anon)
+			x.newRoot(s, n, zeroVal(t))
+			return loc{root: n}
+		}
 		l, v, _ := x.call(s, e)
 		if v != nil || l == nil {
 			reject("call %s does not return a pointer", exprStr(e))
@@ -931,7 +1119,10 @@ func (x *tr) baseLit(cl *ast.CompositeLit) *val {
 		n.Add(n, new(big.Int).Lsh(v, uint(i*fc.word)))
 	}
 	limbs := int(fc.consts["Limbs"].Int64())
-	if len(cl.Elts) != limbs && len(cl.Elts) != 0 {
+	if len(cl.Elts) == 0 {
+		return zeroVal(baseT)
+	}
+	if len(cl.Elts) != limbs {
 		reject("base-field literal with %d limbs", len(cl.Elts))
 	}
 	r := new(big.Int).Lsh(big.NewInt(1), uint(limbs*fc.word))
@@ -1100,13 +1291,15 @@ func (x *tr) call(s *state, c *ast.CallExpr) (*loc, *val, string) {
 		if r, done := x.baseCall(s, *recv, name, c); done {
 			return r.l, nil, r.b
 		}
-		return x.callFn(s, x.p.funcs["Element."+name], "Element."+name, recv, c)
+		f, owner := x.p.lookupFn("Element." + name)
+		return x.callFn(s, f, owner, "Element."+name, recv, c)
 	}
 	key := name
 	if recv != nil {
 		key = x.typeAt(s, *recv).name + "." + name
 	}
-	return x.callFn(s, x.p.funcs[key], key, recv, c)
+	f, owner := x.p.lookupFn(key)
+	return x.callFn(s, f, owner, key, recv, c)
 }
 
 type baseRes struct {
@@ -1175,7 +1368,7 @@ func proj(i, n int) string {
 	return strings.Repeat(".2", n-1)
 }
 
-func (x *tr) callFn(s *state, f *fn, key string, recv *loc, c *ast.CallExpr) (*loc, *val, string) {
+func (x *tr) callFn(s *state, f *fn, owner *pkgCtx, key string, recv *loc, c *ast.CallExpr) (*loc, *val, string) {
 	if f == nil {
 		reject("call of %s, which is not a function of the package over field-like data", key)
 	}
@@ -1245,7 +1438,7 @@ func (x *tr) callFn(s *state, f *fn, key string, recv *loc, c *ast.CallExpr) (*l
 			nb++
 		}
 	}
-	cv := x.p.translate(f, pat)
+	cv := owner.translate(f, pat)
 	if cv.err != "" {
 		reject("call of %s: %s", cv.name, cv.err)
 	}
@@ -1253,7 +1446,7 @@ func (x *tr) callFn(s *state, f *fn, key string, recv *loc, c *ast.CallExpr) (*l
 		x.need(k)
 	}
 	// build the call
-	parts := []string{cv.name}
+	parts := []string{x.p.qual(owner, cv.name)}
 	rootLoc := make([]*loc, len(cv.roots))
 	for i := range f.pos {
 		b := pat[i]
@@ -1387,6 +1580,13 @@ func (x *tr) block(s *state, stmts []ast.Stmt) {
 			c, ok := st.X.(*ast.CallExpr)
 			if !ok {
 				reject("unsupported expression statement")
+			}
+			if se, ok := c.Fun.(*ast.SelectorExpr); ok && se.Sel.Name == "Do" && len(c.Args) == 1 {
+				if id, ok := se.X.(*ast.Ident); ok && x.p.onceVars[id.Name] && s.cells[id.Name] == nil {
+					// initOnce.Do(initCurveParams): lazy initialisation of package-level parameters, which are
+					// parameters of the Lean defs
+					continue
+				}
 			}
 			x.call(s, c)
 		case *ast.AssignStmt:
@@ -1540,6 +1740,14 @@ func (x *tr) assign(s *state, st *ast.AssignStmt) {
 			return
 		}
 		if c, ok := rhs.(*ast.CallExpr); ok {
+			if fid, ok := c.Fun.(*ast.Ident); ok && fid.Name == "new" && x.p.funcs["new"] == nil {
+				l := x.evalPtr(s, c)
+				if _, dup := s.cells[id.Name]; dup {
+					reject("redeclaration of %s", id.Name)
+				}
+				s.ptrs[id.Name] = l
+				return
+			}
 			l, v, _ := x.call(s, c)
 			switch {
 			case l != nil:
@@ -1802,7 +2010,8 @@ func (v *variant) binders(p *pkgCtx) string {
 		}
 	}
 	for _, g := range v.gparams {
-		fmt.Fprintf(&b, " (%s : %s)", g, p.globals[g].t.lean())
+		gl, _ := p.global(g)
+		fmt.Fprintf(&b, " (%s : %s)", g, gl.t.lean())
 	}
 	return b.String()
 }
@@ -1839,7 +2048,12 @@ func modName(n string) string { return strings.ToUpper(n[:1]) + n[1:] }
 
 func (p *pkgCtx) emit() {
 	var b strings.Builder
-	fmt.Fprintf(&b, "/- GENERATED by tools/goslp (slp.go) from /repo/%s on every run. DO NOT EDIT.\n   One def per (function, alias pattern); see Gen/Tower/summary.json for what was not translatable. -/\nset_option linter.unusedVariables false\nnamespace GV.Gen.Tower.%s\n\n", p.cfg.dir, p.cfg.name)
+	imp, open := "", ""
+	if p.parent != nil {
+		imp = "import GnarkVerif.Gen." + p.parent.cfg.sub() + "." + modName(p.parent.cfg.name) + "\n"
+		open = "open " + p.parent.cfg.ns() + "\n"
+	}
+	fmt.Fprintf(&b, "%s/- GENERATED by tools/goslp (slp.go) from /repo/%s on every run. DO NOT EDIT.\n   One def per (function, alias pattern); see Gen/%s/summary.json for what was not translatable. -/\nset_option linter.unusedVariables false\nnamespace %s\n%s\n", imp, p.cfg.dir, p.cfg.sub(), p.cfg.ns(), open)
 	// array structures, then the package's structures in dependency order
 	var ak []string
 	sizes := map[string]bool{}
@@ -1861,7 +2075,7 @@ func (p *pkgCtx) emit() {
 	done := map[string]bool{}
 	var emitT func(t *typ)
 	emitT = func(t *typ) {
-		if t.base || done[t.name] {
+		if t.base || done[t.name] || (p.parent != nil && p.parent.structs[t.name] == t) {
 			return
 		}
 		for _, ft := range t.ftypes {
@@ -1893,19 +2107,37 @@ func (p *pkgCtx) emit() {
 		writeCode(&b, v.body, "  ")
 		b.WriteString("\n")
 	}
-	fmt.Fprintf(&b, "end GV.Gen.Tower.%s\n", p.cfg.name)
-	writeFile("Tower/"+modName(p.cfg.name)+".lean", b.String())
+	fmt.Fprintf(&b, "end %s\n", p.cfg.ns())
+	writeFile(p.cfg.sub()+"/"+modName(p.cfg.name)+".lean", b.String())
 }
 
 // alias + frame theorems (C19 material); proved by the tactics of Proofs/AliasTac.lean
 func (p *pkgCtx) emitAlias() (nAlias, nFrame, nAmbiguous int) {
 	var b strings.Builder
-	fmt.Fprintf(&b, "/- GENERATED by tools/goslp (slp.go). DO NOT EDIT. Alias / frame theorems for Gen/Tower/%s.lean:\n   f_π on merged values = the non-aliased f on equal values; cells never written keep their value. -/\nimport GnarkVerif.Gen.Tower.%s\nimport GnarkVerif.Proofs.AliasTac\nset_option linter.unusedVariables false\nset_option linter.style.nameCheck false\nnamespace GV.Gen.Tower.%s\n\n", modName(p.cfg.name), modName(p.cfg.name), p.cfg.name)
+	open := ""
+	if p.parent != nil {
+		open = "open " + p.parent.cfg.ns() + "\n"
+		fmt.Fprintf(&b, "import GnarkVerif.Gen.%s.%sAlias\n", p.parent.cfg.sub(), modName(p.parent.cfg.name))
+	}
+	fmt.Fprintf(&b, "/- GENERATED by tools/goslp (slp.go). DO NOT EDIT. Alias / frame theorems for Gen/%s/%s.lean:\n   f_π on merged values = the non-aliased f on equal values; cells never written keep their value. -/\nimport GnarkVerif.Gen.%s.%s\nimport GnarkVerif.Proofs.AliasTac\nset_option linter.unusedVariables false\nset_option linter.style.nameCheck false\nnamespace %s\n%s\n", p.cfg.sub(), modName(p.cfg.name), p.cfg.sub(), modName(p.cfg.name), p.cfg.ns(), open)
 	for _, v := range p.order {
+		base := p.variants[leanFn(v.f.key)]
 		if v.f.kind == kBool {
+			// Bool-valued functions write nothing: the aliased variant is the base def on duplicated arguments
+			if v != base && base != nil && base.err == "" {
+				bcall := base.callOn(p, func(bi int) string {
+					for i := range v.f.pos {
+						if base.pat[i] == base.patOfRoot(bi) {
+							return v.roots[v.blockIndex(i)]
+						}
+					}
+					return "?"
+				})
+				fmt.Fprintf(&b, "@[gv_alias] theorem %s_alias %s %s : %s = %s := by gv_alias %s %s\n", v.name, v.instBinders(base), strings.TrimSpace(v.binders(p)), v.callOn(p, nil), bcall, v.name, base.name)
+				p.nBoolAlias++
+			}
 			continue
 		}
-		base := p.variants[leanFn(v.f.key)]
 		n := v.nComp()
 		off := 0
 		if v.hasVal() {
@@ -1980,8 +2212,8 @@ func (p *pkgCtx) emitAlias() (nAlias, nFrame, nAmbiguous int) {
 		fmt.Fprintf(&b, "@[gv_alias] theorem %s_alias %s %s : %s = %s := by gv_alias %s %s\n", v.name, v.instBinders(base), args, call, rhs, v.name, base.name)
 		nAlias++
 	}
-	fmt.Fprintf(&b, "\nend GV.Gen.Tower.%s\n", p.cfg.name)
-	writeFile("Tower/"+modName(p.cfg.name)+"Alias.lean", b.String())
+	fmt.Fprintf(&b, "\nend %s\n", p.cfg.ns())
+	writeFile(p.cfg.sub()+"/"+modName(p.cfg.name)+"Alias.lean", b.String())
 	return
 }
 
@@ -2185,6 +2417,7 @@ func runSLP() {
 		AliasThms    int               `json:"alias_theorems"`
 		FrameThms    int               `json:"frame_theorems"`
 		Ambiguous    int               `json:"alias_ambiguous"`
+		BoolAlias    int               `json:"bool_alias_theorems"`
 		ReducedAlias []string          `json:"alias_patterns_reduced"`
 		KnownAlias   []string          `json:"alias_known_findings"`
 	}
@@ -2198,26 +2431,23 @@ func runSLP() {
 	var all []string
 	var failures []string
 	var ops strings.Builder
-	for _, cfg := range towerPkgs {
-		if _, err := os.Stat(filepath.Join(repo, cfg.dir)); err != nil {
-			die("tower package %s not found", cfg.dir)
-		}
-		p := loadPkg(cfg)
+	curveSummary := map[string]*pkgSummary{}
+	// translate every function of a loaded package under every alias pattern
+	process := func(p *pkgCtx, label string) *pkgSummary {
 		ps := &pkgSummary{Untranslated: map[string]string{}}
-		summary[cfg.name] = ps
 		for _, k := range p.fnOrder {
 			f := p.funcs[k]
 			parts := f.partitions()
 			base := p.translate(f, parts[0])
 			if base.err != "" {
 				ps.Untranslated[k] = base.err
-				if want[cfg.name+" "+k] {
-					failures = append(failures, fmt.Sprintf("%s %s: %s", cfg.name, k, base.err))
+				if want[label+" "+k] {
+					failures = append(failures, fmt.Sprintf("%s %s: %s", label, k, base.err))
 				}
 				continue
 			}
 			ps.Translated = append(ps.Translated, k)
-			all = append(all, cfg.name+" "+k)
+			all = append(all, label+" "+k)
 			reduced := len(parts) > maxPatterns
 			if reduced {
 				ps.ReducedAlias = append(ps.ReducedAlias, k)
@@ -2231,19 +2461,54 @@ func runSLP() {
 				}
 			}
 		}
+		return ps
+	}
+	finish := func(p *pkgCtx, ps *pkgSummary, label string) {
 		p.emit()
 		ps.AliasThms, ps.FrameThms, ps.Ambiguous = p.emitAlias()
-		p.emitExec(&ops)
+		if !p.cfg.curve {
+			p.emitExec(&ops)
+		}
 		ps.Variants = len(p.order)
+		ps.BoolAlias = p.nBoolAlias
 		ps.KnownAlias = p.known
-		fmt.Fprintf(os.Stderr, "gvgoslp: %-10s %3d functions translated (%d defs), %d untranslatable\n", cfg.name, len(ps.Translated), ps.Variants, len(ps.Untranslated))
+		fmt.Fprintf(os.Stderr, "gvgoslp: %-22s %3d functions translated (%d defs), %d untranslatable\n", label, len(ps.Translated), ps.Variants, len(ps.Untranslated))
 	}
+	curvesOf := func(tower string, parent *pkgCtx) {
+		for _, cc := range curvePkgs {
+			if cc.tower != tower {
+				continue
+			}
+			if _, err := os.Stat(filepath.Join(repo, cc.dir)); err != nil {
+				die("curve package %s not found", cc.dir)
+			}
+			cp := loadPkg(cc, parent)
+			label := "curve/" + cc.name
+			cs := process(cp, label)
+			curveSummary[cc.name] = cs
+			finish(cp, cs, label)
+		}
+	}
+	for _, cfg := range towerPkgs {
+		if _, err := os.Stat(filepath.Join(repo, cfg.dir)); err != nil {
+			die("tower package %s not found", cfg.dir)
+		}
+		p := loadPkg(cfg, nil)
+		ps := process(p, cfg.name)
+		summary[cfg.name] = ps
+		// the curve packages over this tower first: they may instantiate further alias patterns of tower methods
+		curvesOf(cfg.name, p)
+		finish(p, ps, cfg.name)
+	}
+	curvesOf("", nil)
 	if slpPrintTargets {
 		fmt.Println(strings.Join(all, "\n"))
 	}
 	writeFile("Tower/exec_ops.txt", ops.String())
 	js, _ := json.MarshalIndent(summary, "", " ")
 	writeFile("Tower/summary.json", string(js)+"\n")
+	js, _ = json.MarshalIndent(curveSummary, "", " ")
+	writeFile("Curve/summary.json", string(js)+"\n")
 	un := map[string]map[string]string{}
 	for k, v := range summary {
 		un[k] = v.Untranslated
